@@ -214,6 +214,10 @@ def reset_initial_conditions(
         else:
             # No surface bunds
             InitCond.surface_storage = 0
+        # No evaporation/transpiration demand is carried over from the last
+        # day of the previous season (it feeds the first day's irrigation decision)
+        InitCond.e_pot = 0
+        InitCond.t_pot = 0
 
     # Update crop parameters (if in gdd mode)
     if crop.CalendarType == 2:
